@@ -152,7 +152,7 @@ fn valid_frames(run: &Run) {
                 }
             }
             Decoded::Err(e) => viol(run, "crc-valid-frame", class, hex(&bytes), "Ok".into(), format!("Err({e})")),
-            Decoded::Panic(p) => viol(run, "crc-valid-frame", class, hex(&bytes), "Ok".into(), format!("panic {p}")),
+            Decoded::Panic(_) => run.add("panics_left_to_C01", 1),
         }
     };
     for &a in &addrs {
@@ -337,7 +337,7 @@ fn error_detection(run: &Run, tier: Tier) {
                     }
                 }
                 Decoded::Err(_) => rejected += 1,
-                Decoded::Panic(pn) => viol(run, "error-detection", "api-panic", hex(&m), "no panic".into(), pn),
+                Decoded::Panic(_) => run.add("panics_left_to_C01", 1),
             }
         }
         run.add("error_patterns_api", n);
